@@ -2,9 +2,9 @@
 
    Sequential lines (state persists until {"op":"reset"}):
      {"op":"enter"} {"op":"exit","exc":b} {"op":"call","m":name} {"op":"setver","src":s,"v":n}
-     {"op":"setdenied","src":s,"b":b} {"op":"setstate","st":"alive|zombie|gone"}
+     {"op":"setdenied","src":s,"b":b} {"op":"setstate","st":"alive|zombie|gone"} {"op":"setabsent","src":"smaps_rollup","b":b}
      {"op":"asdict","kind":"none|noncoll|names","attrs":[..],"all":[..],"env":[[name,out],..]}
-   answer {"model":{"out":…,"reads":[6 counters],"probes":n}, "spec":{"out":…,"reads":[…]}}
+   answer {"model":{"out":…,"reads":[7 counters],"probes":n}, "spec":{"out":…,"reads":[…]}}
 
    Concurrent line (stateless):
      {"op":"conc","obj":"front|proc","progs":[[item,…],…],"sched":[tid | ["ver",f,v] | ["deny",f,b], …]}
@@ -27,7 +27,7 @@ structure DSt where
 
 def DSt.init : DSt := ⟨Sys.init, Spec.SSt.init, World.init⟩
 
-def allSrc : List Src := [.stat, .status, .smaps, .statm, .cmdline, .io]
+def allSrc : List Src := [.stat, .status, .smaps, .statm, .cmdline, .io, .rollup]
 
 def excName : Exc → String
   | .accessDenied => "AccessDenied"
@@ -97,6 +97,7 @@ def parseOp (j : Json) : R Op := do
   else if op == "setver" then return .setVer (← srcF j "src") (← natF j "v")
   else if op == "setdenied" then return .setDenied (← srcF j "src") (← boolF j "b")
   else if op == "setstate" then return .setState (← strF j "st" >>= parseState)
+  else if op == "setabsent" then return .setAbsent (← srcF j "src") (← boolF j "b")
   else if op == "asdict" then
     let kind ← strF j "kind" >>= parseKind
     let attrs ← listF asStr j "attrs"
